@@ -57,6 +57,26 @@ def glue_stage(ctx, res):
                                                                   "block": job[0][2], "kwargs": job[0][3]},
                                "rc": w1.get("rc"), "stderr": (w1.get("stderr") or "")[-600:]})
         return
+    # converted copies of long series must outlive the C call (released memory is overwritten at once in this worker)
+    cjobs = []
+    for k in range(6 if ctx.thorough else 3):
+        L = rng.choice([160, 300, 500])
+        series = [[float(rng.randint(-9, 9)) for _ in range(L)] for _ in range(rng.randint(3, 5))]
+        cjobs.append([[series, ("int", "strided")[k % 2]], {}])
+    wc = impl.run_worker("glue_converted", cjobs, env_extra={"MALLOC_PERTURB_": "85", "PYTHONMALLOC": "malloc"}, timeout=900)
+    res.hit("glue_converted_worker")
+    if wc["crashed"]:
+        res.violations.append({"clause": "the converted copies of the series stay alive while the C code reads them "
+                                         "(worker crashed)", "rc": wc.get("rc"), "stderr": (wc.get("stderr") or "")[-600:]})
+    else:
+        for job, out in zip(cjobs, wc["results"]):
+            res.evaluations += 1
+            for name, (a, b) in out.items():
+                if json.dumps(a) != json.dumps(b):
+                    res.violations.append({"clause": "the converted copies of the series stay alive while the C code reads "
+                                                     "them: same result as on plain float64 copies", "routine": name,
+                                           "kind": job[0][1], "length": len(job[0][0][0]),
+                                           "converted": str(a)[:300], "plain": str(b)[:300]})
     for job, out in zip(jobs, w["results"]):
         res.evaluations += 1
         res.nontrivial.add(json.dumps(job[0][1:3]) + str(len(job[0][0])))
